@@ -357,7 +357,12 @@ def check_method(case, ctx: Ctx):
     if case.get("default_bins"):
         for j in range(d):
             e = np.asarray(h.numpy_bins[j], dtype=float)
-            want = np.histogram_bin_edges(arr[:, j], bins=10)
+            try:
+                want = np.histogram_bin_edges(arr[:, j], bins=10)
+            except ValueError:
+                # (numpy itself cannot cut this column into 10 finite bins: no reference to compare with)
+                ctx.label("numpy_refuses_default_bins")
+                continue
             require(len(e) == 11 and np.array_equal(e, want), "default_bins", f"axis {j}: {e.tolist()} vs numpy's {want.tolist()}")
         ctx.label("default_bins")
     if case.get("shared_range"):
@@ -388,7 +393,7 @@ def method_cases(draw, tier="quick"):
             xs = [base + x * scale for x in draw(st.lists(st.floats(0, 10, allow_nan=False), min_size=n, max_size=n))]
         cols.append(xs)
     rows = [[cols[j][i] for j in range(d)] for i in range(n)]
-    which = draw(st.sampled_from(["int", "int_list", "fixed_width", "fixed_width_list", "integer", "pretty", "mixed_list", "numpy_range", "shared_range", "refuse"]))
+    which = draw(st.sampled_from(["int", "int_list", "fixed_width", "fixed_width_list", "integer", "pretty", "mixed_list", "numpy_range", "shared_range", "refuse", "refuse"]))
     kwargs = {}
     refuse = None
     if which == "shared_range":
@@ -397,7 +402,7 @@ def method_cases(draw, tier="quick"):
         lo = float(draw(st.integers(-12, 5)))
         kwargs["range"] = [lo, lo + draw(st.sampled_from([1.0, 4.0, 7.5, 20.0]))]
     elif which == "refuse":
-        refuse = draw(st.sampled_from(["bins_count", "range_count", "kwarg_count", "h3_columns"]))
+        refuse = draw(st.sampled_from(["bins_count", "bins_count", "bins_count", "range_count", "kwarg_count", "h3_columns"]))
         other = draw(st.sampled_from([k for k in (1, 2, 3, 4, 5) if k != d and not (k == 2 and refuse == "range_count")]))
         if refuse == "h3_columns":
             bins = 3
